@@ -51,6 +51,13 @@ def core():
     D.append(Def('sep_list', variants=[Var('Number', [R('[0-9](\\.[0-9])*')])], tags=('quick', 'loop')))
     D.append(Def('sep_list2', variants=[Var('C', [R('(c;)*c')]), Var('D', [R('(c;)*d')])], tags=('quick', 'loop')))
     D.append(Def('sep_list_ws', skips=[R(' +')], variants=[Var('Number', [R('[0-9](\\.[0-9])*')])], tags=('loop',)))
+    # boundary bytes written as plain byte-string regex literals (outside classes): they go through Literal::escape
+    D.append(Def('bytes_edges', utf8=False, subs=[('t', b'\x80')], skips=[R(b'\x80\x80')], variants=[
+        Var('T80', [R(b'\x80[0-9]+')]), Var('T7f', [R(b'\x7f+x')]), Var('T81', [R(b'a\x81|\xbf\xc0')]), Var('Tc2', [R(b'\xc2[0-9]')]),
+        Var('Tff', [R(b'\xfe\xff?\x00')]), Var('S', [R(b'(?&t)!')]), Var('N', [R(b'[0-9]+')])], tags=('bytes', 'quick')))
+    D.append(Def('look_confirm', variants=[
+        Var('Word', [R('[a-z]+(?m:$)')]), Var('Line', [R('[a-z]+\\n')]), Var('Sp', [T(' ')]), Var('If', [R('if(?-u:\\b)')]),
+        Var('IfSp', [R('if -')])], tags=('look', 'quick')))
     D.append(Def('word_boundary', utf8=False, variants=[
         Var('If', [R(rb'if\b')]), Var('Id', [R(rb'[a-z]+', prio=1)]), Var('Sp', [T(b' ')])], tags=('look', 'quick', 'loop')))
     D.append(Def('look_str', skips=[R(' +')], variants=[
@@ -307,6 +314,15 @@ pub fn cb_opt_unit(lex: &mut L) -> Option<()> { if first(lex) == b'q' && lex.sli
         Var('W', [R('w+', cb='cb_bump_reject', cb_kind='bool', cb_fn='cb_bump_reject')]),
         Var('Q', [R('q+', cb='cb_opt_unit', cb_kind='option_unit', cb_fn='cb_opt_unit')]),
         Var('Dot', [T('.')]), Var('Bang', [T('!')])], tags=('cb', 'cb_err', 'no_consumption_rule', 'quick')))
+    # a look-ahead pattern and a second pattern that matches its text plus exactly the byte confirming the look-ahead:
+    # the longer match (and its callback) must win
+    D.append(Def('cb_look_confirm', error='MyErr', prelude=CB_PRELUDE + '''
+pub fn cb_wlen(lex: &mut L) -> usize { lex.slice().len() }
+pub fn cb_line(lex: &mut L) -> Filter<usize> { if lex.slice().len() > 3 { Filter::Skip } else { Filter::Emit(lex.slice().len()) } }
+''', variants=[
+        Var('Word', [R('[a-z]+(?m:$)', cb='cb_wlen', cb_kind='value', cb_fn='cb_wlen')], field='usize'),
+        Var('Line', [R('[a-z]+\\n', cb='cb_line', cb_kind='filter', cb_fn='cb_line')], field='usize'),
+        Var('Sp', [T(' ')])], tags=('cb', 'look', 'quick')))
     # byte-mode lexer whose callback bumps by a length taken from the match (records ending exactly at the end of input)
     D.append(Def('cb_bump_bytes', utf8=False, prelude='''
 pub type L<'s> = Lexer<'s, Tok>;
@@ -378,6 +394,14 @@ def literal_family(seed=0, thorough=False):
     D.append(Def('ic_prio', variants=[Var('L', [T('\u017ft', ignore_case=True)]), Var('W', [R('[a-z\u017f]+', prio=5)]),
                                       Var('K', [T('\u212a', ignore_case=True)]), Var('C', [R('[kK\u212a]', prio=3)])],
                  tags=('lit', 'ic', 'unicode', 'quick')))
+    # ignore(case) literals whose kind differs from the lexer's mode: the folding follows the *literal* (str: Unicode
+    # simple folding, byte string: ASCII only)
+    D.append(Def('ic_mixed_b', utf8=False, variants=[
+        Var('D', [T('d\u00e9but', ignore_case=True)]), Var('K', [T('k', ignore_case=True)]), Var('Q', [T(b'q\xC3\xA9', ignore_case=True)]),
+        Var('Z', [T(b'zz')])], tags=('lit', 'ic', 'bytes', 'quick')))
+    D.append(Def('ic_mixed_s', variants=[
+        Var('C', [T(b'caf\xC3\xA9', ignore_case=True)]), Var('O', [T(b'ok', ignore_case=True)]), Var('E', [T('\u00e9', ignore_case=True)]),
+        Var('X', [T('x')])], tags=('lit', 'ic', 'unicode', 'quick')))
     D.append(Def('ic_bytes_regex', utf8=False, variants=[
         Var('A', [R(b'(c|\xC3\xBB)+', ignore_case=True)]), Var('B', [R(b'a', ignore_case=True)]), Var('K', [R('k', ignore_case=True)])],
         tags=('lit', 'ic', 'bytes')))
@@ -417,6 +441,11 @@ def subpattern_family():
     D.append(Def('sub_groups', subs=[('unit', '(?:k|M)(?:b|B)'), ('kw', '(?:let)|(?:var)'), ('g1', '(?:ab)')], variants=[
         Var('Size', [R('[0-9]+(?&unit)?')]), Var('Kw', [R('(?&kw)!')]), Var('G', [R('x(?&g1)+y')]), Var('Bang', [T('!')])],
         tags=('subpat', 'quick')))
+    D.append(Def('sub_nonascii_text', subs=[('word', '[a-z]+'), ('d', '[0-9]')], variants=[
+        Var('G', [R('\u00ab(?&word)\u00bb')]), Var('E', [R('\u20ac(?&d)+')]), Var('Close', [T('\u00bb')]), Var('N', [R('(?&d)+')]),
+        Var('J', [R('\u65e5(?&d)x|\u672c(?&word)!')])], tags=('subpat', 'unicode', 'quick')))
+    D.append(Def('sub_nonascii_skip', subs=[('sp', '[ \\t]')], skips=[R('\u00b7(?&sp)+\u00b7'), R('(?&sp)')], variants=[
+        Var('W', [R('[a-z]+')]), Var('Dot', [T('\u00b7')])], tags=('subpat', 'unicode')))
     D.append(Def('sub_same_a', subs=[('d', '[0-9]'), ('w', '(?&d)+x')], variants=[Var('N', [R('n(?&d)+')]), Var('W', [R('(?&w)')])],
                  tags=('subpat', 'quick')))
     D.append(Def('sub_same_b', subs=[('d', '[a-f]'), ('w', '(?&d)+x')], variants=[Var('N', [R('n(?&d)+')]), Var('W', [R('(?&w)')])],
